@@ -87,6 +87,14 @@ def evalOp (ws : List String) : String :=
         let rr := if (kvOf rest "rerun") == some "0" then "-" else "0/0"
         s!"HALT ret=ok | notary=true alphabet=true nns1=true contracts={n} names={names} rerun={rr} br=deploy.ok.n{n}"
     | none => "bad-op"
+  | "upgrade" :: rest =>
+    -- specification-level expectation: every contract of the previous version is updated exactly once to the supplied
+    -- executable, names and roles as after a deployment, the run after the update is inert
+    match (kvOf rest "n").bind parseNat? with
+    | some n =>
+      let names := Generated.DeployFacts.systemDomains.length + n
+      s!"HALT ret=ok | notary=true alphabet=true nns1=true contracts={n} names={names} updated=true rerun=0/0 br=upgrade.ok.n{n}"
+    | none => "bad-op"
   | _ => "bad-op"
 
 end Driver.NotaryBootstrap
